@@ -669,7 +669,7 @@ impl<'a> UserModel<'a> {
         if let Ok(worksheet) = self.model.workbook.worksheet_mut(sheet) {
             if let Some(view) = worksheet.views.get_mut(&self.model.view_id) {
                 view.top_row = last_row;
-                view.row = view.top_row + row_delta;
+                view.row = (view.top_row + row_delta).clamp(1, LAST_ROW);
                 view.range = [view.row, view.column, view.row, view.column];
             }
         }
@@ -704,7 +704,7 @@ impl<'a> UserModel<'a> {
         if let Ok(worksheet) = self.model.workbook.worksheet_mut(sheet) {
             if let Some(view) = worksheet.views.get_mut(&self.model.view_id) {
                 view.top_row = first_row;
-                view.row = view.top_row + row_delta;
+                view.row = (view.top_row + row_delta).clamp(1, LAST_ROW);
                 view.range = [view.row, view.column, view.row, view.column];
             }
         }
@@ -729,13 +729,12 @@ impl<'a> UserModel<'a> {
             } else {
                 return Ok(());
             };
-        let (selected_row, selected_column, range, top_row, left_column) =
+        let (selected_row, selected_column, top_row, left_column) =
             if let Ok(worksheet) = self.model.workbook.worksheet(sheet) {
                 if let Some(view) = worksheet.views.get(&self.model.view_id) {
                     (
                         view.row,
                         view.column,
-                        view.range,
                         view.top_row,
                         view.left_column,
                     )
@@ -745,7 +744,6 @@ impl<'a> UserModel<'a> {
             } else {
                 return Ok(());
             };
-        let [row_start, column_start, _row_end, _column_end] = range;
 
         let mut new_left_column = left_column;
         if target_column >= selected_column {
@@ -781,7 +779,8 @@ impl<'a> UserModel<'a> {
 
         if let Ok(worksheet) = self.model.workbook.worksheet_mut(sheet) {
             if let Some(view) = worksheet.views.get_mut(&self.model.view_id) {
-                view.range = [row_start, column_start, target_row, target_column];
+                // the selection extends from the active cell, so that it stays inside the range
+                view.range = [selected_row, selected_column, target_row, target_column];
                 if new_top_row != top_row {
                     view.top_row = new_top_row;
                 }
